@@ -187,6 +187,7 @@ func init() {
 				}
 			}
 			ex.Explore()
+			noteDiverged(l, ex, "prefix")
 			l.Transitions += int64(ex.Points)
 		})
 	})
